@@ -85,6 +85,7 @@ pub fn run_child(job: ChildJob) -> ChildResult {
         let _ = stderr.read_to_string(&mut s);
         s
     });
+    crate::fw::PROGRESS.fetch_add(1, std::sync::atomic::Ordering::Relaxed);
     let start = Instant::now();
     let status = loop {
         match ch.try_wait() {
